@@ -42,6 +42,9 @@ def main(tier="quick", seed=1, replay=None):
     cov = ssz.evidence_coverage(stats, extra)
     if statestore is not None:
         cov["traces_validated_against_impl"] += extra["history"].get("behaviours_replayed", 0)
+        cov["evaluations"] += extra["history"].get("steps_replayed", 0)
+        cov["distinct_nontrivial"] += extra["history"].get("distinct", 0)
+        cov["rule"] += "; history half: " + str(extra["history"].get("rule", "TLC-generated StateStore behaviours"))
     lib.write_evidence(PID, tier, seed, cov, time.time() - t0, violations=nviol, assumptions=[
         "merkle plans come from TLC (SSZ.tla Plan); hashing of the plan uses crypto/sha256, never zrnt/ztyp hashing",
         "BeaconState-sized containers are evaluated under the minimal and custom presets only",
